@@ -244,6 +244,9 @@ def replay_case(ctx, c, rseed, suspects, sample=False):
     from beancount.core import data
     # price directives may be dated after the last transaction (and after today): keep the ledger in date order
     txns = mark_nul(hb.build_entries(c['ledger'], c['mask'], c['grp'], (), rng, scale), c['nul'])
+    # postings carry price annotations, preferably in a currency their commodity has a price in (either price table):
+    # not part of the position, hence not part of any expectation
+    txns = annotated(txns, rng, {(p[0], p[1]) for p in list(c['prices']) + list(c['prices2'])})
     entries = sorted(hb.build_entries([], [], [], c['prices']) + txns, key=data.entry_sortkey)
     conn = hb.connect(entries)
     case = {'kind': 'balance', 'case': c, 'scale': scale, 'rseed': rseed}
@@ -533,6 +536,42 @@ def window(entries, rng, lo=8, hi=70):
     return with_pids(sorted(prices + picked, key=data.entry_sortkey))
 
 
+QUOTED_IN = {'USD': ('CAD', 'EUR'), 'EUR': ('USD', 'USD', 'CAD'), 'HOOL': ('USD',), 'AAPL': ('USD', 'EUR')}
+
+
+def annotation(rng, units, cost, p=0.45):
+    """the price annotation of a posting (`@ rate QUOTE`: a currency exchange, a sale): an attribute of the POSTING --
+    the position of the posting is its units and cost, and that is all sum(), balance, units(), cost(), value() and
+    convert() may see of it"""
+    from beancount.core import amount
+    if rng.random() >= p:
+        return None
+    quote = rng.choice(QUOTED_IN.get(units.currency, ('USD',)))
+    if quote == units.currency:
+        return None
+    return amount.Amount(hb.D(rng.randint(5, 400)) / 10, quote)
+
+
+def annotated(entries, rng, quotes=None):
+    """the same ledger with price annotations on some postings (the positions are the same)"""
+    from beancount.core import data
+    out = []
+    for e in entries:
+        if isinstance(e, data.Transaction):
+            posts = []
+            for p in e.postings:
+                if p.price is None and rng.random() < 0.6:
+                    qs = sorted(q for b, q in quotes or () if b == p.units.currency) or ['EUR', 'USD']
+                    q = rng.choice(qs)
+                    if q != p.units.currency:
+                        from beancount.core import amount
+                        p = p._replace(price=amount.Amount(hb.D(rng.randint(1, 40)), q))
+                posts.append(p)
+            e = e._replace(postings=posts)
+        out.append(e)
+    return out
+
+
 def random_ledger(rng, n):
     """seeded ledger built directly: cash in two currencies, lots at cost (dated, labelled), sales reducing lots,
     price directives with one decimal; small numbers so that TLC can recompute value / convert exactly"""
@@ -555,6 +594,11 @@ def random_ledger(rng, n):
         d = datetime.date(2020, 1, 1) + datetime.timedelta(days=rng.randint(0, 400))
         if not any(p[0] == 'USD' and p[2] == d.toordinal() for p in plist):
             plist.append(('USD', 'CAD', d.toordinal(), D(rng.randint(10, 20)) / 10))
+    # the currency the cash postings are exchanged for (price annotations below) has a price history of its own
+    for _ in range(rng.randint(0, 2)):
+        d = datetime.date(2020, 1, 1) + datetime.timedelta(days=rng.randint(0, 400))
+        if not any(p[0] == 'EUR' and p[2] == d.toordinal() for p in plist):
+            plist.append(('EUR', 'USD', d.toordinal(), D(rng.randint(10, 20)) / 10))
     # forecasts: prices dated after the day the check runs -- on top of earlier ones, or the only ones of the pair
     for cur, quote in (('HOOL', 'USD'), ('AAPL', 'USD'), ('USD', 'CAD')):
         if rng.random() < 0.3:
@@ -585,7 +629,7 @@ def random_ledger(rng, n):
                 held[(cur, cost)] = have - sell
                 if held[(cur, cost)] == 0:
                     del held[(cur, cost)]
-            posts.append(data.Posting(acct, units, cost, None, None, {'pid': pid}))
+            posts.append(data.Posting(acct, units, cost, annotation(rng, units, cost), None, {'pid': pid}))
         entries.append(data.Transaction(dict(hb.META, lineno=pid), date, '*', None, 'random', frozenset(), frozenset(), posts))
         date += datetime.timedelta(days=rng.choice((0, 1, 3, 30)))
     return entries, pid, [(b, q, d, r) for b, q, d, r in plist]
@@ -713,9 +757,55 @@ def check_reference_law(ctx, conn, entries, rng, masks, stats):
         ctx.traces += 1
 
 
-def record_hom(ctx, conn, rng, masks, groups, dates, out, prices=None, f=None, again=False):
+# ---- selections made by the FROM clause: OPEN ON / CLOSE [ON] / CLEAR ------------------------------------------------
+def random_from(rng, entries):
+    """a FROM clause with summarising qualifiers; the dates are days on which the ledger has transactions (or the day
+    after): the selection is then neither everything nor nothing"""
+    from beancount.core import data
+    days = sorted({e.date for e in entries if isinstance(e, data.Transaction)})
+    if not days:
+        return None
+    d1, d2 = sorted((rng.choice(days) + datetime.timedelta(days=rng.choice((0, 0, 1)))).toordinal() for _ in range(2))
+    shape = rng.choice(('open', 'closeon', 'closeon', 'close', 'clear', 'open+closeon', 'open+close', 'open+clear',
+                        'closeon+clear', 'open+closeon+clear'))
+    parts = shape.split('+')
+    return {'open': d1 if 'open' in parts else 0, 'close': d2 if 'closeon' in parts else True if 'close' in parts else 0,
+            'clear': 'clear' in parts}
+
+
+def from_text(frm):
+    def iso(o):
+        return datetime.date.fromordinal(o).isoformat()
+    return ' '.join(x for x in ('OPEN ON ' + iso(frm['open']) if frm['open'] else '',
+                                'CLOSE' if frm['close'] is True else 'CLOSE ON ' + iso(frm['close']) if frm['close'] else '',
+                                'CLEAR' if frm['clear'] else '') if x)
+
+
+def from_node(frm):
+    from beanquery import parser
+    return parser.ast.From(None, datetime.date.fromordinal(frm['open']) if frm['open'] else None,
+                           True if frm['close'] is True else datetime.date.fromordinal(frm['close']) if frm['close'] else None,
+                           True if frm['clear'] else None)
+
+
+def run_sel(conn, frm, targets, where, group=None, lim=0, as_text=False):
+    """the statement over the postings table (frm None) or over the selection its FROM clause makes"""
+    if frm is None:
+        if as_text:
+            return conn.execute(hb.select_text(targets, '#postings', where, group) + (' LIMIT %d' % lim if lim else '')).fetchall()
+        return conn.execute(limited(hb.select(targets, '#postings', where, group), lim)).fetchall()
+    if as_text:
+        return conn.execute(hb.select_text(targets, from_text(frm), where, group) + (' LIMIT %d' % lim if lim else '')).fetchall()
+    sel = dataclasses.replace(hb.select(targets, None, where, group), from_clause=from_node(frm))
+    return conn.execute(limited(sel, lim)).fetchall()
+
+
+def record_hom(ctx, conn, rng, masks, groups, dates, out, prices=None, f=None, again=False, frm=None, entries=None):
     """one aggregate family -> one `hom` line; returns the function it used.  again: the ledger has been attached to
-    the connection a second time (edited prices) and f has been used on it before"""
+    the connection a second time (edited prices) and f has been used on it before.  frm: the selection is made by a
+    FROM clause with OPEN ON / CLOSE [ON] / CLEAR (and a WHERE clause); WHICH postings such a clause leaves is C13's
+    business: the rows of the selection are read, by the same FROM and WHERE clauses, on a connection nothing else has
+    run on (`entries` attached anew), the sums are taken on `conn`, which has a history of statements"""
     f = f or rng.choice((('units', '', 0), ('cost', '', 0), ('value', '', 0), ('value', '', rng.choice(dates)),
                          ('convert', 'USD', 0), ('convert', 'CAD', 0), ('convert', 'CAD', rng.choice(dates)),
                          ('convert', 'JPY', 0)))
@@ -723,13 +813,22 @@ def record_hom(ctx, conn, rng, masks, groups, dates, out, prices=None, f=None, a
     g = rng.choice(groups)
     fp, fs = f_bql(f, 'position'), f_bql(f, 'sum(position)')
     sums = [('sum(position)', 's'), ('sum(%s)' % fp, 'sf'), (fs, 'fs')]
-    per = hb.run_select(conn, [('position', 'p'), (fp, 'fp'), (g, 'g')], '#postings', where)
-    tot = hb.run_select(conn, sums, '#postings', where, as_text=rng.random() < 0.02)
-    grp = hb.run_select(conn, [(g, 'g')] + sums, '#postings', where, ['g'])
-    # the grouped statement once more with a LIMIT (no ORDER BY): below, at or above the number of groups
-    lim = rng.choice((1, 1, 2, 3, 5))
-    lgrp = conn.execute(limited(hb.select([(g, 'g')] + sums, '#postings', where, ['g']), lim)).fetchall()
-    ctx.case('hom:%s:%s:%s:%d%s' % (f_name(f), where, g, len(per), ':again' if again else ''), n=4)
+    try:
+        per = run_sel(hb.connect(entries) if frm else conn, frm, [('position', 'p'), (fp, 'fp'), (g, 'g')], where)
+        # "... so the last balance equals sum(position) of the same selection"
+        tot = run_sel(conn, frm, sums + [('last(balance)', 'lb')], where, as_text=rng.random() < (0.1 if frm else 0.02))
+        grp = run_sel(conn, frm, [(g, 'g')] + sums, where, ['g'])
+        # the grouped statement once more with a LIMIT (no ORDER BY): below, at or above the number of groups
+        lim = rng.choice((1, 1, 2, 3, 5))
+        lgrp = run_sel(conn, frm, [(g, 'g')] + sums, where, ['g'], lim)
+    except Exception as ex:  # noqa
+        if not frm:
+            raise
+        ctx.violation('sum:exception:%s:from-filter' % type(ex).__name__, 'aggregate statement FROM %s raised %r' % (
+            from_text(frm), ex), {'from': from_text(frm), 'where': where}, 'C2S')
+        return f
+    ctx.case('hom:%s:%s:%s:%d%s%s' % (f_name(f), where, g, len(per), ':again' if again else '',
+                                      ':FROM ' + from_text(frm) if frm else ''), n=4)
     if not per:
         if tot or grp or lgrp:
             ctx.violation('sum:rows:empty', 'aggregate over an empty selection returned rows', {'where': where}, 'C2S')
@@ -743,7 +842,7 @@ def record_hom(ctx, conn, rng, masks, groups, dates, out, prices=None, f=None, a
     ginvs = [(r[0], [hb.proj_any(v) for v in r[1:]]) for r in grp]
     linvs = [(r[0], [hb.proj_any(v) for v in r[1:]]) for r in lgrp]
     try:
-        allinv = invs + [x for _, gi in ginvs + linvs for x in gi]
+        allinv = [x for x in invs if x is not None] + [x for _, gi in ginvs + linvs for x in gi]
         k = max([0] + [max(hb.places(n), hb.places(key[1][0])) for key, n in pos + fpos] + [hb.inv_places(d) for d in allinv]
                 + ([hb.places(p[3]) for p in prices] if prices else []))
         sc = 10 ** k
@@ -772,13 +871,16 @@ def record_hom(ctx, conn, rng, masks, groups, dates, out, prices=None, f=None, a
             op = 1 if mul_in_domain(jpos + hb.json_inventory(invs[0], sc), jprices, sc) else 0
         line = {'k': 'hom', 'id': len(out) + 1, 'f': list(f), 'sc': sc, 'prices': jprices, 'op': op, 'pos': jpos,
                 'fpos': jf, 'sum_pos': hb.json_inventory(invs[0], sc), 'sum_f': hb.json_inventory(invs[1], sc),
-                'f_sum': hb.json_inventory(invs[2], sc), 'groups': jgroups, 'lim': lim, 'lgroups': jlgroups}
+                'f_sum': hb.json_inventory(invs[2], sc), 'groups': jgroups, 'lim': lim, 'lgroups': jlgroups,
+                'lastb': hb.json_inventory(invs[3], sc) if invs[3] is not None else [[['NULL', hb.NOCOST], 1]]}
     except hb.OutOfDomain:
         ctx.skipped += 1
         return f
-    line['_text'] = 'sum(%s) / %s WHERE %s GROUP BY %s [LIMIT %d]%s' % (
-        fp, fs, where, g, lim, ' -- the ledger attached again to the same connection with edited prices' if again else '')
+    line['_text'] = 'sum(%s) / %s / last(balance)%s WHERE %s GROUP BY %s [LIMIT %d]%s' % (
+        fp, fs, ' FROM ' + from_text(frm) if frm else '', where, g, lim,
+        ' -- the ledger attached again to the same connection with edited prices' if again else '')
     line['_again'] = again
+    line['_from'] = from_text(frm) if frm else ''
     out.append(line)
     return f
 
@@ -997,10 +1099,11 @@ def validate(ctx, lines, suspects):
             suspects.items[-1]['trace_rows'] = ln['rows']
         else:
             clause = {1: 'shape', 2: 'sum-position', 3: 'sum-of-f', 4: 'f-of-sum', 5: 'f-per-row', 6: 'f-of-sum-value',
-                      7: 'group', 8: 'partition', 9: 'limit'}.get(rj['row'], str(rj['row']))
+                      7: 'group', 8: 'partition', 9: 'limit', 10: 'last-balance'}.get(rj['row'], str(rj['row']))
             key = 'hom:%s:%s' % (f_name(ln['f']), clause) if clause in ('sum-of-f', 'f-of-sum', 'f-per-row', 'f-of-sum-value') \
                 else 'sum:%s:%s' % (clause, f_name(ln['f']))
             key += ':reattached' if ln.get('_again') else ''
+            key += ':from-filter' if ln.get('_from') else ''
             ctx.violation(key, 'law %s rejected by TLC for %s' % (clause, ln['_text']),
                           {'kind': 'trace', 'line': ln, 'verdict': rj}, 'C2S')
     ctx.traces += len(lines) - len(rejected)
@@ -1218,25 +1321,43 @@ def run(ctx):
         record_isum(ctx, conn, entries, rng, EX_DATES, ilines)
         for _ in range(2):
             check_reference_law(ctx, conn, entries, rng, EX_MASKS, law)
+        # a selection made by FROM OPEN ON / CLOSE / CLEAR, on the connection all of the above has run on
+        record_hom(ctx, conn, rng, EX_MASKS, EX_GROUPS, EX_DATES, lines, frm=random_from(rng, entries), entries=entries)
         # the price directives are edited and the ledger is attached to the same connection again
-        reattach(conn, edited_prices(entries, rng)[0])
+        entries2 = edited_prices(entries, rng)[0]
+        reattach(conn, entries2)
         for f in rng.sample(used, 2):
             record_hom(ctx, conn, rng, EX_MASKS, EX_GROUPS, EX_DATES, lines, f=f, again=True)
+        if rng.random() < 0.5:
+            record_hom(ctx, conn, rng, EX_MASKS, EX_GROUPS, EX_DATES, lines, again=True, frm=random_from(rng, entries2),
+                       entries=entries2)
     ctx.log('C2S: %d example windows recorded' % nwin)
     nrnd = ctx.pick(60, 700)
+    nexch = 0
     for _ in range(nrnd):
         entries, npost, prices = random_ledger(rng, rng.randint(3, 40))
+        nexch += any(p.price is not None and p.cost is None and any(
+            (p.units.currency, p.price.currency) == (b, q) for b, q, _, _ in prices)
+            for e in entries if hasattr(e, 'postings') for p in e.postings)
         conn = hb.connect(entries)
         for _ in range(2):
             record_serial(ctx, conn, npost, rng, RND_MASKS, lines, suspects, RND_NULLABLE)
         used = [record_hom(ctx, conn, rng, RND_MASKS, RND_GROUPS, RND_DATES, lines, prices=prices) for _ in range(3)]
         record_isum(ctx, conn, entries, rng, RND_DATES, ilines, prices=prices)
         check_reference_law(ctx, conn, entries, rng, RND_MASKS, law)
+        record_hom(ctx, conn, rng, RND_MASKS, RND_GROUPS, RND_DATES, lines, prices=prices, frm=random_from(rng, entries),
+                   entries=entries)
         entries2, prices2 = edited_prices(entries, rng, prices)
         reattach(conn, entries2)
         for f in rng.sample(used, 2):
             record_hom(ctx, conn, rng, RND_MASKS, RND_GROUPS, RND_DATES, lines, prices=prices2, f=f, again=True)
+        if rng.random() < 0.5:
+            record_hom(ctx, conn, rng, RND_MASKS, RND_GROUPS, RND_DATES, lines, prices=prices2, again=True,
+                       frm=random_from(rng, entries2), entries=entries2)
     ctx.log('C2S: %d random ledgers recorded' % nrnd)
+    if not nexch:
+        raise MachineryError('vacuity: no random ledger exchanges a currency (price annotation, no cost) that has a price')
+    ctx.leg('C2S', random_ledgers_with_priced_currency_exchange=nexch)
     ctx.leg('LAW', statement_pairs=law['pairs'], rows_on_which_the_expression_is_null=law['null_rows'])
     if not law['null_rows']:
         raise MachineryError('vacuity: no expression of the reference-count law was NULL on any row')
@@ -1244,14 +1365,18 @@ def run(ctx):
         ctx.sample({'leg': 'C2S', 'line': {k: (v if not isinstance(v, list) else v[:3]) for k, v in lines[0].items()}})
     small_runs_finish(ctx, background)
     nops = sum(1 for ln in lines if ln['k'] == 'hom' and ln['op'])
+    nfrom = sum(1 for ln in lines if ln.get('_from'))
     nrej = validate(ctx, lines, suspects)
     ctx.leg('C2S', lines=len(lines), serial_lines=sum(1 for ln in lines if ln['k'] == 'serial'),
             serial_lines_balance_under_enclosing_expression=sum(1 for ln in lines if ln['k'] == 'serial' and 'nul' in ln['prog']),
             hom_lines_after_second_attachment=sum(1 for ln in lines if ln.get('_again')),
+            hom_lines_selection_by_from_open_close_clear=nfrom,
             hom_lines=sum(1 for ln in lines if ln['k'] == 'hom'), hom_lines_recomputed_by_operators=nops,
             rejected=nrej, example_windows=nwin, random_ledgers=nrnd)
     if not nops:
         raise MachineryError('vacuity: no hom line was in the domain of the operators')
+    if not nfrom:
+        raise MachineryError('vacuity: no hom line whose selection is made by FROM OPEN ON / CLOSE / CLEAR')
     if len(ilines) < (nwin + nrnd) // 4:
         raise MachineryError('vacuity: only %d of %d inventory-table histories were in the domain' % (len(ilines), nwin + nrnd))
     ctx.sample({'leg': 'C2S', 'history': ilines[0]['_text'], 'table_rows': ilines[0]['tab'][:3]})
